@@ -7,6 +7,7 @@ package tcp
 // C14: the JSON encoder emits the documented keys, each bound to its own field, in a fixed order; "flags" is
 // omitted iff empty. (Escaping inside jwriter.String is the library's.)
 //@ func easyjsonD3b49167EncodeGithubComVByteCpuSxPkgScanTcp
+//@   sig out, in
 //@   props C14
 //@   observe RawByte, RawString, String, Uint16
 //@   entry row noflags: [call RawByte(out, 123) ; call RawString(out, "\"scan\":") ; call String(out, in.ScanType) ; call RawString(out, ",\"ip\":") ; call String(out, in.IP) ;
@@ -14,6 +15,7 @@ package tcp
 //@   entry row flags:   [call RawByte(out, 123) ; call RawString(out, "\"scan\":") ; call String(out, in.ScanType) ; call RawString(out, ",\"ip\":") ; call String(out, in.IP) ;
 //@                       call RawString(out, ",\"port\":") ; call Uint16(out, in.Port) ; call RawString(out, ",\"flags\":") ; call String(out, in.Flags) ; call RawByte(out, 125)] when in.Flags != "" -> exit
 //@ func (ScanResult).MarshalJSON
+//@   sig v
 //@   props C14
 //@   observe easyjsonD3b49167EncodeGithubComVByteCpuSxPkgScanTcp, BuildBytes
 //@   entry row enc: [call easyjsonD3b49167EncodeGithubComVByteCpuSxPkgScanTcp(bind_w, v) ; call BuildBytes(_, _) as (b)] when ret0 == b -> exit
@@ -25,9 +27,11 @@ package tcp
 //@ pred tcpchain(d []gopacket.LayerType) = (len(d) == 3 && d[0] == layers.LayerTypeEthernet && d[1] == layers.LayerTypeIPv4 && d[2] == layers.LayerTypeTCP)
 //@        || (len(d) == 2 && d[0] == layers.LayerTypeIPv4 && d[1] == layers.LayerTypeTCP)
 //@ func validPacket
+//@   sig decoded
 //@   props C06 C03 C14 C16 C20
 //@   ensures ret <==> tcpchain(decoded)
 //@ func (*ScanMethod).ProcessPacketData
+//@   sig s, data, _
 //@   props C06 C03 C16 C14 C20
 //@   observe DecodeLayers, pktFilter, pktFlags, String, Put
 //@   entry row undecodable: [call DecodeLayers(s.parser, data, _) as (e)] when e != nil && ret == e -> exit
@@ -42,6 +46,7 @@ package tcp
 // " and ip src net " + subnet; if port ranges are given " and (" + join(" or ", "src portrange S-E" for each range
 // in order, S/E = that range's own bounds) + ")". The SYN variant appends " and tcp[13] == 18".
 //@ func BPFFilter
+//@   sig r
 //@   props C03
 //@   modifies nothing
 //@   observe (*strings.Builder).WriteString, (*strings.Builder).WriteRune, (*strings.Builder).String, (*net.IPNet).String, fmt.Sprintf, strings.Join
@@ -57,6 +62,7 @@ package tcp
 //@                           && (forall k int :: 0 <= k && k < len(pre(ranges)) ==> ranges[k] == pre(ranges[k])) -> continue
 //@   loop 0 row close:  [call strings.Join(ranges, " or ") as (j) ; call WriteString(_, j) ; call WriteRune(_, 41) ; call String(_) as (res)] when ret0 == res && ret1 == 1518 -> exit
 //@ func SYNACKBPFFilter
+//@   sig r
 //@   props C03
 //@   modifies nothing
 //@   observe BPFFilter
@@ -73,6 +79,7 @@ package tcp
 //@ pred iphdr(ip *layers.IPv4, r *scan.Request, id0 int) = fresh(ip) && ip.SrcIP == r.SrcIP && ip.DstIP == r.DstIP && ip.Protocol == 6 && ip.Version == 4 && ip.Id == 1 + id0 && 1 <= ip.Id && ip.Id <= 65535 && ip.TTL == 64
 //@ pred ethhdr(e *layers.Ethernet, r *scan.Request) = fresh(e) && e.SrcMAC == r.SrcMAC && e.DstMAC == r.DstMAC && e.EthernetType == 2048
 //@ func (*PacketFiller).Fill
+//@   sig f, packet, r
 //@   props C05 C11 C17 C01 C02 C19 C07 C13
 //@   observe rand.Intn, rand.Uint32, SetNetworkLayerForChecksum, gopacket.SerializeLayers
 //@   entry row cksumerr: [call rand.Intn(65535) as (id0) ; call rand.Intn(28232) as (sp0) ; call rand.Uint32() as (sq) ; call SetNetworkLayerForChecksum(bind_ck, bind_n) as (ce)] when ce != nil && ret == ce -> exit
@@ -90,72 +97,87 @@ package tcp
 
 // C05: every option sets exactly its own field (frame: nothing else of the filler changes)
 //@ func WithSYN$1
+//@   sig f
 //@   props C05
 //@   modifies f.SYN
 //@   ensures f.SYN
 //@ func WithACK$1
+//@   sig f
 //@   props C05
 //@   modifies f.ACK
 //@   ensures f.ACK
 //@ func WithFIN$1
+//@   sig f
 //@   props C05
 //@   modifies f.FIN
 //@   ensures f.FIN
 //@ func WithRST$1
+//@   sig f
 //@   props C05
 //@   modifies f.RST
 //@   ensures f.RST
 //@ func WithPSH$1
+//@   sig f
 //@   props C05
 //@   modifies f.PSH
 //@   ensures f.PSH
 //@ func WithURG$1
+//@   sig f
 //@   props C05
 //@   modifies f.URG
 //@   ensures f.URG
 //@ func WithECE$1
+//@   sig f
 //@   props C05
 //@   modifies f.ECE
 //@   ensures f.ECE
 //@ func WithCWR$1
+//@   sig f
 //@   props C05
 //@   modifies f.CWR
 //@   ensures f.CWR
 //@ func WithNS$1
+//@   sig f
 //@   props C05
 //@   modifies f.NS
 //@   ensures f.NS
 //@ func WithFillerVPNmode$1
+//@   sig f
 //@   props C05
 //@   modifies f.vpnMode
 //@   ensures f.vpnMode == vpnMode
 // constructor: a zero filler, then the options applied in order, nothing else
 //@ func NewPacketFiller
+//@   sig opts
 //@   props C05 C01 C02 C11 C17 C19 C07 C13
-//@   observe o
+//@   observe PacketFillerOption
 //@   entry row init:  [] when !f.SYN && !f.ACK && !f.FIN && !f.RST && !f.PSH && !f.URG && !f.ECE && !f.CWR && !f.NS && !f.vpnMode -> loop 0
-//@   loop 0 row apply: [call o(bind_x)] when x == f -> continue
+//@   loop 0 row apply: [call PacketFillerOption(bind_x)] when x == f -> continue
 //@   loop 0 row done:  [] when fresh(ret) && ret == f -> exit
 
 // C06 / C03: constructor. Defaults (every TCP reply, all flag letters), then the options in order; the parser decodes
 // from Ethernet (IPv4 in VPN mode) into THIS method's own structs, skips unsupported layers, keeps panic recovery on
 //@ func WithPacketFilterFunc$1
+//@   sig s
 //@   props C03 C06 C14 C16 C20
 //@   modifies s.pktFilter
 //@   ensures s.pktFilter == pktFilter
 //@ func WithPacketFlagsFunc$1
+//@   sig s
 //@   props C03 C06 C14 C16 C20
 //@   modifies s.pktFlags
 //@   ensures s.pktFlags == pktFlags
 //@ func WithScanVPNmode$1
+//@   sig s
 //@   props C03 C17 C06 C14 C16 C20
 //@   modifies s.vpnMode
 //@   ensures s.vpnMode == vpnMode
 //@ func NewScanMethod
+//@   sig scanType, psrc, results, opts
 //@   props C06 C03 C14 C16 C20
-//@   observe o, gopacket.NewDecodingLayerParser
+//@   observe ScanMethodOption, gopacket.NewDecodingLayerParser
 //@   entry row init:  [] when sm.PacketSource == psrc && sm.scanType == scanType && sm.results == results && sm.pktFilter == TrueFilter && sm.pktFlags == AllFlags && !sm.vpnMode -> loop 0
-//@   loop 0 row apply: [call o(sm)] -> continue
+//@   loop 0 row apply: [call ScanMethodOption(sm)] -> continue
 //@   loop 0 row eth:   [call gopacket.NewDecodingLayerParser(layers.LayerTypeEthernet, bind_ds) as (pr)]
 //@                       when !sm.vpnMode && len(ds) == 3 && isptr(ds[0], layers.Ethernet) && asptr(ds[0], layers.Ethernet) == addr(sm.rcvEth) && isptr(ds[1], layers.IPv4) && asptr(ds[1], layers.IPv4) == addr(sm.rcvIP)
 //@                         && isptr(ds[2], layers.TCP) && asptr(ds[2], layers.TCP) == addr(sm.rcvTCP) && sm.parser == pr && pr.IgnoreUnsupported && !pr.IgnorePanic && ret == sm -> exit
@@ -165,15 +187,18 @@ package tcp
 // the default reply predicate accepts every TCP segment; EmptyFlags prints nothing; AllFlags prints one letter per set
 // flag in the documented order s a f r p u e c n
 //@ func TrueFilter
+//@   sig arg0
 //@   props C03 C06 C14 C16 C20
 //@   ensures ret
 //@ func EmptyFlags
+//@   sig arg0
 //@   props C03 C06 C14 C16 C20
 //@   ensures ret == ""
 
 // C03 / C06: the flag letters of a record are computed from THIS segment alone: one letter per set flag
 // (s a f r p u e c n), none for a clear flag, and the result is exactly what was written
 //@ func AllFlags
+//@   sig pkt
 //@   props C03 C06 C14 C16 C20
 //@   observe (*strings.Builder).WriteRune, (*strings.Builder).String
 //@   exit require syn: call WriteRune(_, 115) when pkt.SYN then true
@@ -198,6 +223,7 @@ package tcp
 
 // plain-text form of a record: printing never panics, whatever the scanned host put into the record (C03 C16)
 //@ func (*ScanResult).String
+//@   sig r
 //@   props C03 C16
 
 // the scan method's packet stream is its packet source's, its results are the result channel's
@@ -206,6 +232,7 @@ package tcp
 //@   observe Packets
 //@   entry row forward: [call Packets(recv.PacketSource, _, _) as (c)] when ret == c -> exit
 //@ func (*ScanMethod).Results
+//@   sig s
 //@   props C03 C14 C16 C06 C08 C20 C09 C10 C11 C12
 //@   observe Chan
 //@   entry row chan: [call Chan(s.results) as (c)] when ret == c -> exit
@@ -228,6 +255,7 @@ package tcp
 //@   props C05
 //@   ensures closureof(ret, "WithFIN$1")
 //@ func WithFillerVPNmode
+//@   sig vpnMode
 //@   inline
 //@   props C05
 //@   ensures closureof(ret, "WithFillerVPNmode$1") && capt(ret, "vpnMode") == vpnMode
@@ -240,10 +268,12 @@ package tcp
 //@   props C05
 //@   ensures closureof(ret, "WithPSH$1")
 //@ func WithPacketFilterFunc
+//@   sig pktFilter
 //@   inline
 //@   props C03 C06 C14 C16 C20
 //@   ensures closureof(ret, "WithPacketFilterFunc$1") && capt(ret, "pktFilter") == pktFilter
 //@ func WithPacketFlagsFunc
+//@   sig pktFlags
 //@   inline
 //@   props C03 C06 C14 C16 C20
 //@   ensures closureof(ret, "WithPacketFlagsFunc$1") && capt(ret, "pktFlags") == pktFlags
@@ -256,6 +286,7 @@ package tcp
 //@   props C05
 //@   ensures closureof(ret, "WithSYN$1")
 //@ func WithScanVPNmode
+//@   sig vpnMode
 //@   inline
 //@   props C03 C17 C06 C14 C16 C20
 //@   ensures closureof(ret, "WithScanVPNmode$1") && capt(ret, "vpnMode") == vpnMode
